@@ -231,3 +231,36 @@ def opener_branch_agreement(ctx, clause):
         ok = isinstance(v, ast.Attribute) and v.attr == a.lstrip('_') and isinstance(v.value, ast.Name)
         ctx.decide(ok, 'R-FLOW', clause, init, v, f'handle-cache::{a}',
                    f'Array.__init__ caches {a} from the object the opener yields', detail=f'{a} = {norm(v) if v is not None else None}')
+
+
+def languages_over_registry(ctx, rl, regname='readcodefunc'):
+    """The language-listing method ranges over the registry (for loop or comprehension, keys() or the dict itself)
+    and filters on the dispatcher's result being None / not None."""
+    REG = (regname, f'{regname}.keys()', f'list({regname})', f'sorted({regname})', f'list({regname}.keys())',
+           f'sorted({regname}.keys())', f'tuple({regname})')
+    over = False
+    for n in own_nodes(rl.node):
+        if isinstance(n, ast.For) and norm(n.iter) in REG:
+            over = True
+        if isinstance(n, ast.comprehension) and norm(n.iter) in REG:
+            over = True
+    filt = any(isinstance(n, ast.Compare) and len(n.ops) == 1 and isinstance(n.ops[0], (ast.Is, ast.IsNot)) and
+               isinstance(n.comparators[0], ast.Constant) and n.comparators[0].value is None
+               for n in own_nodes(rl.node))
+    return over and filt
+
+
+def rejects_unknown_language(ctx, rc, reg, disp, regname='readcodefunc'):
+    """With a language outside the registry the method ends in `raise ValueError` and never reaches the dispatcher
+    (path conditions folded with the registry's real key set)."""
+    from ..pathcond import reach_under, outcome_under
+    from ._trunc import folder
+    lang = 'language' if 'language' in rc.params else [p for p in rc.params if p != 'self'][0]
+    keys = frozenset(reg)
+    env = {lang: '<<no such language>>', regname: keys, f'{regname}.keys()': keys, 'self.readcodelanguages': keys}
+    ft = folder(env, rc)
+    may = reach_under(rc, ft)
+    g = cfg_of(rc)
+    calls = [n for n, cal in ctx.E.callees(rc) if cal is disp]
+    normal, raised = outcome_under(rc, ft)
+    return normal is False and 'ValueError' in raised and not any(g.node_for(c) in may for c in calls)
